@@ -3,6 +3,7 @@
 -/
 import ZvtVerif.Properties.C06
 import ZvtVerif.Spec.Layout
+import ZvtVerif.WriteFile
 namespace Zvt.C05
 open Zvt C06
 
@@ -115,5 +116,49 @@ theorem generated_finals_exist :
     Generated.sequences.all (fun s => match Generated.enums.find? (·.name == s.2.2.1) with
       | some e => s.2.2.2.2.all (fun f => e.variants.any (·.1 == f))
       | none => false) = true := by decide +kernel
+
+/-! ### the firmware upload loop (`WriteFile::into_stream`) -/
+
+/-- rounds of the upload: read a packet (n bytes), answer it with exactly one packet — the data block —, hand it
+to the caller. -/
+def wfRounds : List (Nat × Bytes × Nat × Val) → List Ev
+  | [] => []
+  | (n, pkt, i, v) :: rs => .r n :: .w pkt :: .y i v :: wfRounds rs
+
+/-- **Every** run of the upload loop — whatever the terminal sends — is a sequence of rounds in each of which the
+one packet written is the data block the request asks for (`wfDecide … = .data pkt`: requested file id, requested
+offset, `wfBlock` of that file — C11), followed by one closing: a final packet answered with one acknowledgement
+and yielded, or exactly one error (after which nothing is written), or silence. -/
+theorem wfLoop_shape (files : List (Nat × Bytes)) (block : Nat) :
+    ∀ (fuel : Nat) (t : Term), ∃ rs tail, wfLoop files block fuel t = wfRounds rs ++ tail ∧
+      (∀ r ∈ rs, wfDecide files block r.2.2.1 r.2.2.2 = .data r.2.1) ∧
+      (Closing tail ∨ ∃ n i v, tail = [.r n, .w ackBytes, .y i v, .fin] ∧ wfDecide files block i v = .finish) := by
+  intro fuel
+  induction fuel with
+  | zero => intro t; exact ⟨[], [.hang], by simp [wfLoop, wfRounds], by simp, Or.inl .hang⟩
+  | succ fuel ih =>
+    intro t
+    simp only [wfLoop]
+    rcases readPkt_evs t with ⟨p, t', n, h⟩ | ⟨t', h⟩ | ⟨t', n, h⟩ | ⟨t', h⟩
+    · rw [h]; simp only
+      cases parseEnum wfEnum p with
+      | error er => exact ⟨[], [.r n, .e (errName er), .fin], by simp [wfRounds], by simp, Or.inl (.rerr n _)⟩
+      | ok iv =>
+        obtain ⟨i, v⟩ := iv
+        simp only
+        cases hdec : wfDecide files block i v with
+        | finish => exact ⟨[], [.r n, .w ackBytes, .y i v, .fin], by simp [wfRounds], by simp, Or.inr ⟨n, i, v, rfl, hdec⟩⟩
+        | fail => exact ⟨[], [.r n, .e "incomplete", .fin], by simp [wfRounds], by simp, Or.inl (.rerr n _)⟩
+        | data pkt =>
+          obtain ⟨rs, tail, heq, hall, hc⟩ := ih t'.release
+          refine ⟨(n, pkt, i, v) :: rs, tail, by simp [heq, wfRounds], ?_, hc⟩
+          intro r hr
+          simp only [List.mem_cons] at hr
+          rcases hr with rfl | hr
+          · exact hdec
+          · exact hall r hr
+    · rw [h]; exact ⟨[], [.e "io:eof", .fin], by simp [wfRounds], by simp, Or.inl (.err _)⟩
+    · rw [h]; exact ⟨[], [.r n, .e "io:eof", .fin], by simp [wfRounds], by simp, Or.inl (.rerr n _)⟩
+    · rw [h]; exact ⟨[], [.hang], by simp [wfRounds], by simp, Or.inl .hang⟩
 
 end Zvt.C05
